@@ -29,6 +29,8 @@ BIG = ('$T', 12)
 BIGB = ('$B', 13)
 MFS = {'disk_min_file_size': 8}
 BULK = {'clear', 'evict', 'expire', 'cull'}
+SYSCALL_CORE = {'set-file-over-file', 'pop-file', 'push-pull', 'clear',
+                'block-two-writes', 'incr', 'delete-file', 'lazy-cull'}
 
 
 def cache_workloads():
@@ -164,7 +166,7 @@ def cache_case(name, init, program, tier):
         model_cache_op(s, op)
         specs.append(s)
 
-    def attempt(at):
+    def attempt(at, sys_at=None):
         d = run.fresh_dir('cw')
         shutil.copytree(tmpl, d)
         ENV.reset(run.scratch(), now1)
@@ -177,7 +179,7 @@ def cache_case(name, init, program, tier):
                 journal(i)
             cache.close()
 
-        pid, w_go, r_j = run_child(work, at)
+        pid, w_go, r_j = run_child(work, at, sys_at, d)
         survivor = dc.Cache(d, timeout=0)
         survivor.get('warm-up')
         os.write(w_go, b'g')
@@ -193,28 +195,52 @@ def cache_case(name, init, program, tier):
     part['states'] = len(log)
     part['executions'] += 1
 
+    level = ['event']
+
     def bad(at, clause, msg):
+        where = tuple(log[at]) if level[0] == 'event' and at < len(log) \
+            else 'system call'
         part['violations'].append({
             'signature': {'clause': clause, 'workload': name},
-            'message': '%s: workload %s killed before event %d %r: %s' % (
-                clause, name, at, tuple(log[at]) if at < len(log) else None,
-                msg),
+            'message': '%s: workload %s killed before %s %d %r: %s' % (
+                clause, name, level[0], at, where, msg),
             'replay': {'engine': 'CRASH', 'module': 'props.c07',
-                       'workload': name, 'at': at}})
+                       'workload': name, 'at': at, 'level': level[0]}})
 
-    for at in range(len(log)):
-        d, survivor, completed, _, killed, failed = attempt(at)
+    points = [('event', at) for at in range(len(log))]
+    from ..crash import finish_child as _fc, shim
+    if shim() is not None and (tier == 'thorough' or name in SYSCALL_CORE):
+        d, survivor, completed, _, killed, failed = attempt(None, -1)
+        survivor.close()
+        run.drop(d)
+        nsys = _fc.syscalls or 0
+        part['syscall_points'] = nsys
+        points += [('syscall', k) for k in range(nsys)]
+    for lvl, at in points:
+        level[0] = lvl
+        if lvl == 'event':
+            d, survivor, completed, _, killed, failed = attempt(at)
+        else:
+            d, survivor, completed, _, killed, failed = attempt(None, at)
         part['transitions'] += 1
         part['executions'] += 1
+        part['states'] += 1 if lvl == 'syscall' else 0
         try:
             if not killed:
-                raise RuntimeError('worker was not killed at %d (%s)'
-                                   % (at, name))
+                raise RuntimeError('worker was not killed at %s %d (%s)'
+                                   % (lvl, at, name))
             ENV.reset(run.scratch(), now1)
             A = specs[completed]
             B = specs[min(completed + 1, len(program))]
             op = program[completed] if completed < len(program) else None
-            snap = Snapshot(d)
+            try:
+                snap = Snapshot(d)
+            except Exception as exc:
+                bad(at, 'database-unusable', 'the directory cannot be read '
+                    'after the kill: %s: %s' % (type(exc).__name__, exc))
+                part['outcomes']['unusable'] = part['outcomes'].get(
+                    'unusable', 0) + 1
+                continue
             rows = snap.contents()
             okA = same([tuple(r) for r in rows], [tuple(r) for r in A.rows()])
             okB = same([tuple(r) for r in rows], [tuple(r) for r in B.rows()])
@@ -237,8 +263,14 @@ def cache_case(name, init, program, tier):
                     'their value cannot be read: %s'
                     % (unreadable, [r['verror'] for r in snap.rows
                                     if r['verror']][:2]))
+            try:
+                fresh_handle = dc.Cache(d, timeout=0)
+            except Exception as exc:
+                bad(at, 'database-unusable', 'a fresh handle cannot be opened '
+                    'after the kill: %s: %s' % (type(exc).__name__, exc))
+                continue
             for who, handle in (('survivor', survivor),
-                                ('fresh', dc.Cache(d, timeout=0))):
+                                ('fresh', fresh_handle)):
                 try:
                     for k, v, e, t in rows:
                         if e is not None and e <= ENV.now:
@@ -258,7 +290,11 @@ def cache_case(name, init, program, tier):
                 finally:
                     if who == 'fresh':
                         handle.close()
-            fixer = dc.Cache(d, timeout=0)
+            try:
+                fixer = dc.Cache(d, timeout=0)
+            except Exception as exc:
+                bad(at, 'database-unusable', 'cannot reopen: %r' % (exc,))
+                continue
             try:
                 lib_check(fixer, fix=True)
                 hard, soft = lib_check(fixer)
@@ -505,8 +541,19 @@ def main(tier, seed):
     units = run.shuffled(units, seed)
     for part in run.pmap(work, units):
         rep.merge(part, part.get('label'))
+    from ..crash import shim
+    rep.notes.append('syscall-level kill shim %s' % (
+        'active' if shim() is not None else
+        'NOT active (run ./setup.sh): shim-level kill points only'))
     rep.bounds = {
         'workloads': len(units),
+        'syscall_level': 'with the LD_PRELOAD shim: additionally a kill '
+                         'before every write-class system call (write, '
+                         'pwrite64, fsync, fdatasync, ftruncate, unlink, '
+                         'rename, mkdir, rmdir) below the cache directory, '
+                         'i.e. inside SQLite\'s commit, for %s workloads'
+                         % ('all Cache' if tier == 'thorough'
+                            else '%d core' % len(SYSCALL_CORE)),
         'kill_points': 'before every SQL statement and every file create / '
                        'write chunk / close / remove / mkdir / rmdir of the '
                        'whole program (states = events per workload)',
